@@ -145,14 +145,18 @@ def dump_micro(a):
 
 
 COEF_POOL = ["harmonic 350.0 1.09", "  12.5   3.4 ", "cosine/periodic  72.500283  -1  1   # C_R O_1 H_", "0.105 3.431 # C_3", "fourier 1.0 0.5 -0.25 2   #  odd   spacing ",
-             "-1.5e-3 2", "harmonic 1 2#tight", "3"]
+             "-1.5e-3 2", "harmonic 1 2#tight", "3",
+             "class2 " + " ".join("%d.%06d" % (i + 1, 123457 * (i + 3) % 1000000) for i in range(14)) + "   # a long hybrid style line, " + "x" * 30,
+             "table " + " ".join("p%02d=%d" % (i, i * i) for i in range(16)) + " # " + "-".join("seg%d" % i for i in range(8))]
 
 
 def gen_struct(rng, k):
     n = rng.randint(1, 10)
     nt = rng.randint(1, 4)
-    ckind = ["ortho", "tilted", "tilted-neg", "none", "ortho", "yz-only", "xy-only"][k % 7]
+    ckind = ["ortho", "tilted", "tilted-neg", "none", "ortho", "yz-only", "xy-only", "xz-only", "tiny-tilt", "two-tilts"][k % 10]
     L = [rng.randrange(8 * D, 40 * D) for _ in range(3)]
+    if ckind == "tiny-tilt":
+        L = [rng.randrange(30 * D, 60 * D) for _ in range(3)]
     cell = None
     if ckind != "none":
         xy = xz = yz = 0
@@ -164,6 +168,18 @@ def gen_struct(rng, k):
             yz = rng.choice([-1, 1]) * rng.randrange(1, 5 * D)
         elif ckind == "xy-only":
             xy = rng.choice([-1, 1]) * rng.randrange(1, 5 * D)
+        elif ckind == "xz-only":
+            xz = rng.choice([-1, 1]) * rng.randrange(1, 5 * D)
+        elif ckind == "two-tilts":
+            xy, xz, yz = [rng.choice([-1, 1]) * rng.randrange(1, 5 * D) for _ in range(3)]
+            which = rng.randrange(3)
+            xy, xz, yz = (0 if which == 0 else xy), (0 if which == 1 else xz), (0 if which == 2 else yz)
+        elif ckind == "tiny-tilt":
+            # cell angles within a thousandth of a degree of 90: still a tilted box, the tilt shows at the printed precision
+            t = [rng.choice([-2, -1, 1, 2]) if rng.random() < 0.6 else 0 for _ in range(3)]
+            if not any(t):
+                t[rng.randrange(3)] = rng.choice([-1, 1])
+            xy, xz, yz = t
         cell = [(L[0], 0, 0), (xy, L[1], 0), (xz, yz, L[2])]
     masses = [rng.choice([int(12.0107 * D), int(1.00794 * D), int(15.9994 * D), int(91.224 * D), rng.randrange(D, 200 * D)]) for _ in range(nt)]
     st = dict(pos=[tuple(rng.randrange(-20 * D, 60 * D) for _ in range(3)) for _ in range(n)], typ=[rng.randrange(nt) for _ in range(n)],
